@@ -160,8 +160,13 @@ def collapse_swa(ctx, content_type, ns_soap_env, parser_kwargs=None):
     # What an ugly hack...
     request = MIMEMultipart('related', boundary=boundary)
     msg_string = re.sub(r"\n\n.*", '', request.as_string())
+    try:
+        msg_string = msg_string.encode(charset)
+    except LookupError:
+        raise ValidationError(charset, u"Unknown charset %r in the "
+                                                         u"Content-Type header")
     msg_string = chain(
-        (msg_string.encode(charset), generator.NL.encode('ascii')),
+        (msg_string, generator.NL.encode('ascii')),
         (e for e in envelope),
     )
 
